@@ -14,6 +14,8 @@ var checks = map[string]func(rt.Tier) int{
 	"C01": mpt.C01,
 	"C02": mpt.C02,
 	"C03": mpt.C03,
+	"C04": mpt.C04,
+	"C05": mpt.C05,
 	"C06": sc.C06,
 	"C07": sc.C07,
 	"C14": mpt.C14,
